@@ -165,6 +165,7 @@ type World struct {
 	Queues          []QueueSpec         `json:"queues"`
 	PriorityClasses []PriorityClassSpec `json:"priority_classes,omitempty"`
 	Topologies      []TopologySpec      `json:"topologies,omitempty"`
+	NodePool        string              `json:"node_pool,omitempty"` // queues and pod groups carry this node-pool label value
 	Workloads       []WorkloadSpec      `json:"workloads"`
 }
 
@@ -503,7 +504,14 @@ func (w *World) Objects() []runtime.Object {
 		out = append(out, BuildNode(n))
 	}
 	for _, q := range w.Queues {
-		out = append(out, BuildQueue(q))
+		qo := BuildQueue(q)
+		if w.NodePool != "" {
+			if qo.Labels == nil {
+				qo.Labels = map[string]string{}
+			}
+			qo.Labels[NodePoolKey] = w.NodePool
+		}
+		out = append(out, qo)
 	}
 	for _, pc := range w.PriorityClasses {
 		out = append(out, &schedulingv1.PriorityClass{
@@ -518,7 +526,11 @@ func (w *World) Objects() []runtime.Object {
 	for i := range w.Workloads {
 		wl := &w.Workloads[i]
 		if !allOtherSched(wl) {
-			out = append(out, BuildPodGroup(*wl))
+			pg := BuildPodGroup(*wl)
+			if w.NodePool != "" {
+				pg.Labels[NodePoolKey] = w.NodePool
+			}
+			out = append(out, pg)
 		}
 		for _, p := range wl.Pods {
 			out = append(out, BuildPod(wl, p))
